@@ -1,1 +1,158 @@
-def main : IO Unit := IO.println "stub"
+import Nsq.Model.Line
+import Nsq.Model.AdminGate
+import Nsq.Model.AdminFanout
+import Nsq.Model.Aggregate
+import Nsq.Model.AggregateWire
+import Nsq.Gen.AdminRoutes
+/-! Driver for engine E7 (nsqadmin): one operation per input line, one canonical answer line out.
+
+  routes                      → the regenerated route table, `METHOD /path handler;…`
+  gate k=v …                  → C17: status, upstream requests, notifications, config write
+  view …                      → C18: see `Nsq.Model.AggregateWire`
+-/
+open Nsq Nsq.Line Nsq.Model.AdminGate
+
+namespace E7
+
+def unhexStr (s : String) : Option String :=
+  match unhex s with
+  | some bs => String.fromUTF8? (ByteArray.mk bs.toArray)
+  | none => none
+
+def field (toks : List String) (k : String) : String :=
+  match toks.find? (fun t => t.startsWith (k ++ "=")) with
+  | some t => (t.drop (k.length + 1)).toString
+  | none => ""
+
+def splitList (s : String) (sep : Char) : List String :=
+  if s == "-" || s == "" then [] else s.split (· == sep) |>.toList |>.map (·.toString)
+
+def hexList (s : String) : List String :=
+  (splitList s ',').filterMap unhexStr
+
+def sortStrings (xs : List String) : List String :=
+  xs.foldr (fun x acc =>
+    let rec ins : List String → List String
+      | [] => [x]
+      | y :: ys => if x ≤ y then x :: y :: ys else y :: ins ys
+    ins acc) []
+
+def joinOr (xs : List String) (sep : String) : String :=
+  if xs.isEmpty then "-" else String.intercalate sep xs
+
+/-- Does a registered pattern match the request path? Returns the parameters. -/
+def matchSegs : List String → List String → Option (List (String × String))
+  | [], [] => some []
+  | p :: ps, s :: ss =>
+    if p.startsWith ":" then
+      if s == "" then none else (matchSegs ps ss).map (fun r => ((p.drop 1).toString, s) :: r)
+    else if p == s then matchSegs ps ss else none
+  | _, _ => none
+
+def renderRoutes : String :=
+  String.intercalate ";" (Nsq.Gen.AdminRoutes.adminRoutes.map (fun r =>
+    r.method ++ " /" ++ String.intercalate "/" r.segs ++ " " ++ r.handler))
+
+open Nsq.Model.AdminFanout in
+def parseWorld (toks : List String) : World :=
+  let lks := (splitList (field toks "lk") ',').filterMap (fun t =>
+    match t.split (· == ':') |>.toList |>.map (·.toString) with
+    | [a, up, prods] => some { addr := a, up := up == "1", producers := splitList prods '+' : Lookupd }
+    | _ => none)
+  let nds := (splitList (field toks "nd") ',').filterMap (fun t =>
+    match t.split (· == ':') |>.toList |>.map (·.toString) with
+    | [a, up, ht] => some { addr := a, up := up == "1", hasTopic := ht == "1" : Nsqd }
+    | _ => none)
+  { lookupds := lks, nsqdAddrs := splitList (field toks "na") ',', nsqds := nds }
+
+open Nsq.Model.AdminFanout in
+def renderReq : Nsq.Model.AdminFanout.Req → String
+  | .get a p => "G:" ++ a ++ p
+  | .post a p => "P:" ++ a ++ p
+
+def errOf : Nsq.Model.AdminFanout.Err → ErrKind
+  | .none => .none
+  | .partialErr => .partialErr
+  | .full => .full
+
+open Nsq.Model.AdminFanout in
+def gate (toks : List String) : String :=
+  let method := field toks "m"
+  let path := (splitList (field toks "p") ',').filterMap unhexStr
+  let cands := Nsq.Gen.AdminRoutes.adminRoutes.filterMap (fun r =>
+    (matchSegs r.segs path).map (fun ps => (r, ps)))
+  match cands.find? (fun c => c.1.method == method) with
+  | none => if cands.isEmpty then "404 - - 0" else "405 - - 0"
+  | some (r, params) =>
+    match lookupHandler Nsq.Gen.AdminRoutes.adminHandlers r.handler with
+    | none => "0 - - 0"
+    | some sk =>
+      let w := parseWorld toks
+      let btopic := (unhexStr (field toks "btopic")).getD ""
+      let bchan := (unhexStr (field toks "bchan")).getD ""
+      let param := fun (k : String) => match params.find? (·.1 == k) with | some kv => kv.2 | none => ""
+      let others := hexList (field toks "other")
+      let lfail := hexList (field toks "lfail")
+      let actionFor : String → Option Action := fun name =>
+        if name == "CreateTopicChannel" then
+          some { kind := if bchan == "" then .createTopic else .createChannel, topic := btopic, channel := bchan }
+        else if name == "TombstoneNodeForTopic" then
+          some { kind := .tombstone, topic := btopic, node := param "node" }
+        else (kindOfName name).map (fun k => { kind := k, topic := param "topic", channel := param "channel" })
+      let conf : Conf :=
+        { adminUsers := hexList (field toks "users"),
+          aclHeader := (unhexStr (field toks "acl")).getD "",
+          cidrSet := field toks "cidr" == "1",
+          lookupdMode := lookupdMode w,
+          notifyOn := field toks "notify" == "1" }
+      let hdrs := (splitList (field toks "hdrs") ',').filterMap (fun t =>
+        match t.split (· == ':') |>.toList |>.map (·.toString) with
+        | [n, v] => match unhexStr n, unhexStr v with
+          | some n, some v => some (n, v)
+          | _, _ => none
+        | _ => none)
+      let req : Nsq.Model.AdminGate.Req :=
+        { method := method, headers := hdrs,
+          action := (unhexStr (field toks "action")).getD "",
+          opt := param "opt",
+          nonEmptyParams := (params.filter (fun kv => kv.2 != "")).map (·.1),
+          nonEmptyBody := (if btopic != "" then ["Topic"] else []) ++ (if bchan != "" then ["Channel"] else []) }
+      let env : Env :=
+        { conf := conf, req := req, inNet := field toks "innet" == "1",
+          bodyOk := field toks "body" == "1",
+          upstreamErr := fun name _ => match actionFor name with
+            | some a => errOf (result w a)
+            | none => .none,
+          localErr := fun name _ => lfail.contains name,
+          otherCond := fun t => others.contains t }
+      let (status, obs) := run env sk
+      let ups := obs.filterMap (fun o => match o with | .upstream n => some n | _ => none)
+      let reqs :=
+        if ups.all (fun n => (actionFor n).isSome) then
+          joinOr (sortStrings (ups.flatMap (fun n => match actionFor n with
+            | some a => ((requests w a).filter (observable w)).map renderReq
+            | none => []))) "|"
+        else "*"
+      let notes := obs.filterMap (fun o => match o with | .notify a => some a | _ => none)
+      let cfgw := if obs.contains .configWrite then "1" else "0"
+      s!"{status} {reqs} {joinOr (sortStrings notes) ","} {cfgw}"
+
+end E7
+
+def stepLine (line : String) : String :=
+  match words line with
+  | ["routes"] => E7.renderRoutes
+  | "gate" :: toks => E7.gate toks
+  | "view" :: toks => Nsq.Model.AggregateWire.viewLine toks
+  | _ => "bad-op"
+
+partial def loop (h : IO.FS.Stream) (out : IO.FS.Stream) : IO Unit := do
+  let line ← h.getLine
+  if line.isEmpty then return ()
+  out.putStrLn (stepLine (line.dropEndWhile (· == '\n')).toString)
+  loop h out
+
+def main : IO Unit := do
+  let out ← IO.getStdout
+  loop (← IO.getStdin) out
+  out.flush
